@@ -186,6 +186,9 @@ class CInt:
                 return 1 if (self.ev(e[2]) and self.ev(e[3])) else 0
             if op == '||':
                 return 1 if (self.ev(e[2]) or self.ev(e[3])) else 0
+            if op == ',':
+                self.ev(e[2])
+                return self.ev(e[3])
             a, b = self.ev(e[2]), self.ev(e[3])
             if op in ('<', '>', '<=', '>=', '==', '!='):
                 return int({'<': a < b, '>': a > b, '<=': a <= b, '>=': a >= b, '==': a == b, '!=': a != b}[op])
